@@ -281,6 +281,23 @@ def evaluate(case):
                 if not ok:
                     raise Violation("same-element", op, f"{what} on the {tag} storage ({desc}): {why}", base=kd.show(expd), other=kd.show(rg))
         counters["checked:registered"] = 1
+    # storing the variant into an array-valued container that lists the blades in the base order: refused, or stored blade by blade
+    if sorted(ka2) == sorted(ka) and list(ka2) != list(ka) and not floaty and len(ka) >= 2:
+        import numpy as np
+        cont = kd.mk_raw(alg, ka, np.zeros((len(ka), 2)))
+        src = kd.mk_raw(alg, ka2, np.array([float(v) for v in va2]))
+        try:
+            cont[0] = src
+            stored = True
+        except Exception:
+            stored = False
+        if stored:
+            got_ = {k: float(np.asarray(v)[0]) for k, v in zip(cont.keys(), cont.values())}
+            want_ = {k: float(v) for k, v in zip(ka2, va2)}
+            if any(abs(got_[k] - want_[k]) > 1e-12 for k in want_):
+                raise Violation("same-element", "setitem", f"container[0] = y with y listing the blades as {ka2} (container: {ka}) was accepted but "
+                                f"stored {got_}, the element is {want_}")
+        counters["checked:setitem-variant"] = 1
     # anchor exact operators to the reference as well (excludes a common-mode error of all three calls)
     if r1[0] == "ok" and (op in EXACT_BIN or op in EXACT_UN):
         Rr = R(d, ref.T)
